@@ -615,10 +615,33 @@ class Run:
         rit, mit = real.it, model.it
         V = lambda props, oracle, key, detail: Violation(  # noqa: E731
             self.props_ctx(ctx, props), oracle, key, detail, i)
-        # (a) in-run physical / structural violations
-        if rit.viol:
-            p, what, where = rit.viol[0]
-            raise V([p], 'O-call', what, {'where': where})
+        # (a) in-run physical / structural violations.  When a check for one
+        # property is running, a violation of another property does not stop
+        # the evaluation of the remaining oracles of this call: the property
+        # under check may be violated as well (e.g. a foreign file that was
+        # not moved aside is a C10 violation at function entry and a C03
+        # violation after the rollback).
+        want = self.opts.get('prop')
+        first = None
+        for p, what, where in rit.viol:
+            v = V([p], 'O-call', what, {'where': where})
+            if want is None or want in v.props:
+                raise v
+            if first is None:
+                first = v
+        if first is not None:
+            try:
+                self._compare_build_rest(i, ctx, V)
+            except Violation as v:
+                if want in v.props:
+                    raise
+            raise first
+        self._compare_build_rest(i, ctx, V)
+
+    def _compare_build_rest(self, i, ctx, V):
+        sb = self.sb
+        real, model = ctx['real'], ctx['model']
+        rit, mit = real.it, model.it
         # (b) walk the real invocation order
         mset = set(mit.order)
         for inv in real.order:
@@ -1261,7 +1284,9 @@ def _chain_injected(e):
 
 
 def run_scenario(sc, opts=None):
-    """Returns dict(verdict=ok|violation|invalid|error, ...)."""
+    """Returns dict(verdict=ok|violation|invalid|error, ...).
+
+    ``opts['prop']`` names the property under check (see compare_build)."""
     run = None
     try:
         run = Run(sc, opts)
